@@ -36,10 +36,10 @@ inline std::string ints_to_string (const std::vector<int>& v)
 
 // ---------------------------------------------------------------------------------------------
 // The container lives inside a poisoned, canary-guarded byte buffer.
-template <typename SV>
+template <typename SV, int Pad = 64>
 struct Arena
 {
-  enum { PAD = 64 };
+  enum { PAD = Pad };
   alignas (64) unsigned char raw[PAD + sizeof (SV) + PAD + 64];
   bool alive;
 
@@ -354,7 +354,8 @@ struct Probe
   typedef typename SV::value_type T;
   enum { N = SV::inline_capacity_v };
 
-  static void storage (SV& v, const Arena<SV>& arena, bool faulted, const char *who)
+  template <int Pad>
+  static void storage (SV& v, const Arena<SV, Pad>& arena, bool faulted, const char *who)
   {
     const char *props = faulted ? "C02,C06" : "C02";
     const SV& c = v;
